@@ -10,6 +10,7 @@ class C15(Prop):
     design_ref = "DESIGN.md §7 C15"
     models = [ModelRun("cluster", cluster_gen.gen_registry, lambda c: any(o.startswith("listall") for o in c.ops),
                        spec_needs_impl=True, jobs=2, shrinkable=False,
+                       regions={"cluster.raft_path_conflict": cluster_gen.region_raft_conflict},
                        search=lambda rng, b: cluster_gen.gen_registry(rng, "thorough")[:b], rule=(
         "real rnacos processes on loopback (3 nodes): 6-14 HTTP registrations / deregistrations of persistent and ephemeral "
         "instances of two services addressed to arbitrary nodes, a settling time of 4 s (sync interval 500 ms + margin), then "
@@ -22,7 +23,8 @@ class C15(Prop):
         "instance registered through every node is listed by all nodes (complete naming views), the lists are collected until "
         "the live nodes agree, for at most 8 s; in half of the thorough scenarios a node is killed, a registration is "
         "made meanwhile, the node is restarted and the lists are compared again. Oracle: every live node returns the same "
-        "instances (address, health, enabled, weight) and they are the registered ones. non-trivial = contains a comparison"))]
+        "instances (address, health, enabled, weight) and they are the registered ones. Two operations on one address of "
+        "which one goes through Raft are kept 1.5 s apart (region of known finding F33). non-trivial = contains a comparison"))]
     trusted_base = [
         "gRPC clients are the nacos_rust_client crate (a dependency of r-nacos itself); one directed scenario kills the node a "
         "client is connected to and demands that its instances are gone from the other nodes after 30 s, and that all agree "
